@@ -105,7 +105,7 @@ func c02diff(path string, a, b reflect.Value) string {
 }
 
 func TestZZBoundedC02(t *testing.T) {
-	fmt.Println("BOUNDED-BOUND: 146 statements (every statement family, every option of SELECT / SHOW / CREATE / ALTER, names needing quotes and escapes, keywords as names, extreme numbers and durations, negated operands, regexes with slashes, nested subqueries): parse, print, re-parse, structural comparison")
+	fmt.Println("BOUNDED-BOUND: 148 statements (every statement family, every option of SELECT / SHOW / CREATE / ALTER, names needing quotes and escapes, keywords as names, extreme numbers and durations, negated operands, regexes with slashes, nested subqueries): parse, print, re-parse, structural comparison")
 	corpus := []string{
 		`SELECT mean(value) FROM cpu WHERE host = 'a' AND time > now() - 1h GROUP BY time(5m), host fill(none) ORDER BY time DESC LIMIT 5 OFFSET 2 SLIMIT 3 SOFFSET 1 tz('UTC')`,
 		`SELECT mean(value) FROM cpu GROUP BY time(5m, 1m) fill(0)`,
@@ -135,6 +135,8 @@ func TestZZBoundedC02(t *testing.T) {
 		`SELECT top(value, host, 3), bottom(value, 2) FROM cpu`,
 		`SELECT percentile(value, 99.9) AS p, derivative(mean(value), 10s) FROM cpu GROUP BY time(1m)`,
 		`SELECT value AS "my value", value AS "select" FROM cpu`,
+		`SELECT value AS value, mean(value) AS mean, a + b AS a_b, "FROM" AS "SELECT", "Limit", "TRUE", "Database" FROM cpu`,
+		`SELECT "FROM" FROM "Select"."Where"."Group" WHERE "AND" = 'x' GROUP BY "Time", "BY"`,
 		`SELECT "select", "from", "my field", "a\"b", "a\\b", "a'b" FROM "my measurement"`,
 		`SELECT value FROM "db"."rp"."m", "db"..m2`,
 		`SELECT value FROM "select"."from"."where"`,
